@@ -18,7 +18,7 @@ ENV = dict(os.environ, GOPROXY="off", GOSUMDB="off", GOTOOLCHAIN="local", GOFLAG
 WT = "/tmp/seedwt"
 VDIR = os.environ.get("VERIF_DIR", "/verif")
 # checks of other properties that are expected to notice a change as well
-ALSO = {"C12-r9-1": ["C11"], "C02-r9-2": ["C19"], "C15-r9-2": ["C06"], "C01-r8-1": ["C07"], "C03-r8-1": ["C04"], "C03-r8-2": ["C04"], "C09-r8-1": ["C03"], "C09-r8-2": ["C03"], "C04-r8-2": ["C03"], "C05-r7-1": ["C03"], "C05-r7-2": ["C03"], "C09-r7-1": ["C04"], "C10-r7-1": ["C04"], "C11-r7-1": ["C01", "C08"], "C16-r7-2": ["C02"], "C10-r6-2": ["C04"], "C16-r6-2": ["C02"], "C13-r6-1": ["C18"], "C01-r6-1": ["C07"], "C10-r3-2": ["C04"], "C05-r5-2": ["C03"], "C09-r5-1": ["C03"], "C14-r5-2": ["C15"], "C10-r5-1": ["C04"], "C13-r2-2": ["C18"], "C11-2": ["C12"], "C03-r2-2": ["C05"], "C05-r3-1": ["C03"], "C19-r4-1": ["C02"], "C13-r4-1": ["C18"], "C03-r4-2": ["C15", "C10"], "C14-r4-2": ["C15"], "C16-r4-2": ["C02"], "C04-r3-2": ["C03"], "C10-r3-1": ["C06"], "C12-r3-1": ["C11"], "C05-2": ["C06"], "C10-1": ["C06"], "C19-2": ["C02"], "C04-2": ["C10"], "C14-1": ["C15"], "C07-1": ["C01"]}
+ALSO = {"C05-r10-1": ["C03"], "C07-r10-2": ["C05"], "C01-r10-1": ["C11"], "C04-r10-1": ["C03"], "C10-r10-1": ["C04"], "C10-r10-2": ["C04"], "C12-r9-1": ["C11"], "C02-r9-2": ["C19"], "C15-r9-2": ["C06"], "C01-r8-1": ["C07"], "C03-r8-1": ["C04"], "C03-r8-2": ["C04"], "C09-r8-1": ["C03"], "C09-r8-2": ["C03"], "C04-r8-2": ["C03"], "C05-r7-1": ["C03"], "C05-r7-2": ["C03"], "C09-r7-1": ["C04"], "C10-r7-1": ["C04"], "C11-r7-1": ["C01", "C08"], "C16-r7-2": ["C02"], "C10-r6-2": ["C04"], "C16-r6-2": ["C02"], "C13-r6-1": ["C18"], "C01-r6-1": ["C07"], "C10-r3-2": ["C04"], "C05-r5-2": ["C03"], "C09-r5-1": ["C03"], "C14-r5-2": ["C15"], "C10-r5-1": ["C04"], "C13-r2-2": ["C18"], "C11-2": ["C12"], "C03-r2-2": ["C05"], "C05-r3-1": ["C03"], "C19-r4-1": ["C02"], "C13-r4-1": ["C18"], "C03-r4-2": ["C15", "C10"], "C14-r4-2": ["C15"], "C16-r4-2": ["C02"], "C04-r3-2": ["C03"], "C10-r3-1": ["C06"], "C12-r3-1": ["C11"], "C05-2": ["C06"], "C10-1": ["C06"], "C19-2": ["C02"], "C04-2": ["C10"], "C14-1": ["C15"], "C07-1": ["C01"]}
 
 
 def sh(cmd, cwd=None, env=None, timeout=3000):
